@@ -67,6 +67,15 @@ CLAIMED = {
              "z3-decided identities; positive semi-definiteness per element on a rational material/size grid.",
         note="float64 as exact reals; sqrt(3) is an exact algebraic constant; meshes <= 2x2 / 1x1x1 quick, 3x2 / 2x2x1 "
              "thorough; PSD for rational sizes/material only (symbolic ones time out), assembled by linearity in x."),
+    "C11": dict(
+        text="EigenSolve's own code (dispatch, sorting function, sign rule, normalisation loop, shift handling, the "
+             "shift-invert operator and the arguments handed to ARPACK) executed on symbolic A (and B = G G^T + I); LAPACK "
+             "and ARPACK are oracles returning arbitrary (W, Q) constrained only by A Q = B Q diag(W); z3 decides for all "
+             "values and all orderings: every output column is a non-zero multiple of an oracle eigenvector paired with "
+             "its eigenvalue, q^T B q = 1, ordering follows the sorting function, mean entry >= 0 for symmetric problems, "
+             "complete spectrum on the dense path, OPinv solves (A - sigma B) v = r and k/sigma/M are passed through.",
+        note="that LAPACK/ARPACK find eigenpairs (and 'closest to the shift') is their contract, not checked; n <= 3 dense, "
+             "n = 2 sparse in the quick tier (3 thorough); real data only."),
     "C12": dict(
         text="Strain/Stress/ElementAverage/ElementOperation/NodalOperation/ThermoMechanical executed on a symbolic affine "
              "displacement field with symbolic sizes and material: every strain/stress row, the energy identity with the "
